@@ -14,6 +14,8 @@ PARTS = {
   'C05': {
     'quick': [
       S('array-probe5', 'base', 'prop=C05', 'kind=array', 'maxlen=5'),
+      # the last operation of the history in the state key (lib/vf_bfs.h suffix=K)
+      S('array-probe3-sfx1', 'base', 'prop=C05', 'kind=array', 'maxlen=3', 'suffix=1'), S('list-probe3-sfx1', 'base', 'prop=C05', 'kind=list', 'maxlen=3', 'suffix=1'),
       S('list-probe5', 'base', 'prop=C05', 'kind=list', 'maxlen=5'),
       S('array-probe3-asan', 'asan', 'prop=C05', 'kind=array', 'maxlen=3'),
       S('list-probe3-asan', 'asan', 'prop=C05', 'kind=list', 'maxlen=3'),
@@ -30,6 +32,8 @@ PARTS = {
     ],
     'thorough': [
       S('array-probe7', 'base', 'prop=C05', 'kind=array', 'maxlen=7'),
+      # the last operation of the history in the state key (lib/vf_bfs.h suffix=K)
+      S('array-probe4-sfx1', 'base', 'prop=C05', 'kind=array', 'maxlen=4', 'suffix=1'), S('list-probe4-sfx1', 'base', 'prop=C05', 'kind=list', 'maxlen=4', 'suffix=1'),
       S('list-probe7', 'base', 'prop=C05', 'kind=list', 'maxlen=7'),
       S('array-probe5-asan', 'asan', 'prop=C05', 'kind=array', 'maxlen=5'),
       S('list-probe5-asan', 'asan', 'prop=C05', 'kind=list', 'maxlen=5'),
